@@ -1212,9 +1212,10 @@ class Molecule(UnitsManaged, Saveable, OpenSystem):
         Nm = self.get_number_of_modes()
         faclength = len(factor[1])
         
-        # energy conversion
+        # energy conversion; the record kept is a new one, the object
+        # submitted by the caller is not changed
         val = self.convert_energy_2_internal_u(factor[0])
-        factor[0] = val
+        factor = [val, list(factor[1])]
         
         if  faclength != Nm:
             raise Exception("Expected "+str(Nm)+
